@@ -69,11 +69,11 @@ pub fn is_valid_input_value(
                 return None;
             }
 
-            match registry
-                .types
-                .get(type_name)
-                .unwrap_or_else(|| panic!("Type `{}` not defined", type_name))
-            {
+            // an unknown type is reported by the `KnownTypeNames` rule
+            let Some(ty) = registry.types.get(type_name) else {
+                return None;
+            };
+            match ty {
                 registry::MetaType::Scalar {
                     is_valid: Some(is_valid_fn),
                     ..
@@ -188,7 +188,10 @@ pub fn is_valid_input_value(
 
                         None
                     }
-                    _ => None,
+                    _ => Some(valid_error(
+                        &path_node,
+                        format!("expected type \"{}\"", type_name),
+                    )),
                 },
                 _ => None,
             }
